@@ -226,6 +226,11 @@ def c17_scan(rec, rng, thorough):
             else:
                 pssm = make_pssm(rows, False)
                 striped = lightmotif.stripe(text_of(ranks, False))
+                if m >= 3 and it % 2 == 0:
+                    # the same striped sequence was scanned with a SHORTER motif before (one sequence, several motifs)
+                    short = make_pssm(rows[:2 + it % (m - 2)], False)
+                    for _h in lightmotif.scan(short, striped, threshold=ungrid(thr), block_size=bs):
+                        break
                 sc = lightmotif.scan(pssm, striped, threshold=ungrid(thr), block_size=bs)
                 if life == 2:
                     del pssm, striped
@@ -502,7 +507,8 @@ class ShortReads(io.RawIOBase):
         return out
 
 
-def render(fmt, motifs, rng):
+def render(fmt, motifs, rng, protein=False):
+    DNA = letters(protein)      # symbol letters of the alphabet in rank order (shadows the module constant on purpose)
     out = []
     for mo in motifs:
         vals, order, m = mo["vals"], mo["order"], len(mo["vals"][0])
@@ -536,28 +542,32 @@ def c17_load(rec, rng, thorough):
     n = 96 if thorough else 32
     for it in range(n):
         fmt = ["jaspar", "jaspar16", "transfac", "uniprobe"][it % 4]
+        # protein motif files through load(..., protein=True): every format that names its symbols, one file in three
+        protein = fmt != "jaspar" and (it // 4) % 3 == 2
+        ns = 20 if protein else 4
         nrec = rng.choice([1, 2, 3, 9])
         motifs = []
         for i in range(nrec):
             m = rng.randint(1, 9)
-            order = [0, 1, 3, 2]
+            order = list(range(20)) if protein else [0, 1, 3, 2]
             if fmt != "jaspar" and rng.random() < 0.6:
                 rng.shuffle(order)
             if fmt == "uniprobe":
-                vals = [[None] * m for _ in range(4)]
+                vals = [[None] * m for _ in range(ns)]
                 for p in range(m):
-                    parts = [0, 0, 0, 0]
+                    parts = [0] * ns
                     for _ in range(64):
-                        parts[rng.randrange(4)] += 1
-                    for j in range(4):
+                        parts[rng.randrange(ns)] += 1
+                    for j in range(ns):
                         vals[j][p] = repr(parts[j] / 64)
             else:
-                vals = [[str(rng.randint(0, 200)) for _ in range(m)] for _ in range(4)]
+                vals = [[str(rng.randint(0, 200)) for _ in range(m)] for _ in range(ns)]
             motifs.append(dict(id="M%d_%d" % (it, i), acc=[], name=[("NA%d x" % i)] if fmt == "transfac" and rng.random() < 0.5 else [],
                                desc=["some text %d" % i] if fmt != "uniprobe" and rng.random() < 0.6 else [], order=order, vals=vals))
-        data = render(fmt, motifs, rng)
+        data = render(fmt, motifs, rng, protein)
         how = it % 3
-        e = dict(ev="py_load", fmt=fmt, K=5, motifs=motifs, how=["path", "bytesio", "short_reads"][how])
+        e = dict(ev="py_load", fmt=fmt, K=21 if protein else 5, motifs=motifs, how=["path", "bytesio", "short_reads"][how])
+        kw = dict(protein=True) if protein else {}
 
         def run():
             if how == 0:
@@ -565,18 +575,19 @@ def c17_load(rec, rng, thorough):
                     f.write(data)
                     path = f.name
                 try:
-                    ms = list(lightmotif.load(path, fmt))
+                    ms = list(lightmotif.load(path, fmt, **kw))
                 finally:
                     os.unlink(path)
             elif how == 1:
-                ms = list(lightmotif.load(io.BytesIO(data), fmt))
+                ms = list(lightmotif.load(io.BytesIO(data), fmt, **kw))
             else:
-                ms = list(lightmotif.load(ShortReads(data, rng.choice([1, 3, 7])), fmt))
+                ms = list(lightmotif.load(ShortReads(data, rng.choice([1, 3, 7])), fmt, **kw))
             out = []
             for mo in ms:
                 if fmt == "uniprobe":
-                    # weights = frequency / 0.25 : exact for dyadic frequencies
-                    mat = [[repr(x / 4) for x in row] for row in rows_of(mo.pwm, len(mo.pwm))]
+                    # weights = frequency / uniform background (0.25, or 0.05 for proteins) : exact for dyadic frequencies
+                    mat = [[repr(x / 4) for x in row] for row in rows_of(mo.pwm, len(mo.pwm))] if not protein else \
+                          [[repr(round(x / 20 * 64) / 64) for x in row] for row in rows_of(mo.pwm, len(mo.pwm))]
                 else:
                     mat = [[str(x) for x in row] for row in rows_of(mo.counts, len(mo.counts))]
                 out.append(dict(name=[mo.name] if mo.name is not None else [],
@@ -590,7 +601,7 @@ def c17_load(rec, rng, thorough):
         else:
             e.update(ret=r[0], msg=r[1], recs=[])
         rec.emit(e)
-        rec.cls("load_" + fmt)
+        rec.cls("load_" + fmt + ("_protein" if protein else ""))
 
 
 def record_c17(rec, rng, thorough):
@@ -782,7 +793,7 @@ def record_c18(rec, rng, thorough):
 # ----------------------------------------------------------------------------- entry point
 
 def main(prop, out, seed, thorough):
-    rng = random.Random(seed * 1000003 + (17 if prop in ("C17", "C06") else 11 if prop in ("C11", "C12", "C13") else 18))
+    rng = random.Random(seed * 1000003 + (17 if prop in ("C17", "C06", "C09", "C10") else 11 if prop in ("C11", "C12", "C13") else 18))
     rec = Rec(out)
     if prop == "C06":
         # object life-cycles through the bindings: scanners that outlive every other reference to their arguments
@@ -793,6 +804,12 @@ def main(prop, out, seed, thorough):
     elif prop in ("C11", "C12", "C13"):
         # the p-value half of the bindings only (same events, same trace specification as C17)
         c17_pvalues(rec, rng, thorough)
+    elif prop == "C09":
+        # the conversions count -> frequency -> weight -> log-odds as the bindings expose them (pseudocounts and
+        # backgrounds given as numbers or dicts, bases other than 2)
+        c17_normalize(rec, rng, thorough)
+    elif prop == "C10":
+        c17_rc(rec, rng, thorough)
     elif prop == "C17":
         record_c17(rec, rng, thorough)
     elif prop == "C18":
